@@ -289,3 +289,8 @@ package raft
 //@   requires cc != nil
 //@   at_send cc.readyCh assert [ready-only-after-sync] syncOK == old(syncOK) + 1
 //@   modifies *
+
+// ---- the msgpack form of a log entry: the operation type must survive "omitempty" and a reused decode target ----
+// the zero value is no valid operation type, so a missing field never stands for a pin or an unpin
+//@ lemma log_op_types_are_not_the_zero_value: LogOpPin != 0 && LogOpUnpin != 0 && LogOpPin != LogOpUnpin
+//@   property C08 C01
